@@ -84,7 +84,7 @@ def gen_ops(rng, nops):
             ops.append({"op": "copy", "h": h, "g": g, "to": rng.randrange(NG), "how": rng.choice(["copy", "copy.copy"])})
         elif r < 0.80:
             mode = rng.choice(["same", "equal-copy", "reordered", "reordered", "one-different", "all-different", "units-exact", "units-different", "incompatible", "extra-key", "asis",
-                               "dtype-other", "kind-other"])
+                               "dtype-other", "kind-other", "ncomp-other"])
             ops.append({"op": "eq", "h": h, "g": g, "g2": rng.randrange(NG), "mode": mode, "pick": rng.randrange(8)})
         elif r < 0.86:
             ops.append({"op": "ds_set", "h": h, "d": rng.randrange(ND), "name": rng.choice(["mesh", "part", "x"]),
@@ -386,6 +386,12 @@ def execute(case, stats):
                         # the same numbers stored with another width (float32 for float64, int32 for int64): equal by content
                         specs[pk]["dtype"] = {"f8": "f4", "i8": "i4"}.get(specs[pk].get("dtype", "f8"), "f4")
                         stats.inc("probe.eq_same_content_other_dtype")
+                    elif mode == "ncomp-other":
+                        # a Vector with one component more or less; the shared leading components hold the same numbers
+                        if specs[pk]["kind"] == "vec":
+                            vs_ = specs[pk]["vals"]
+                            specs[pk] = dict(specs[pk], vals=(vs_[:-1] if len(vs_) > 1 and op["pick"] % 2 else vs_ + [list(vs_[-1])])[:3] if len(vs_) < 3 or op["pick"] % 2 else vs_[:-1])
+                        stats.inc("probe.eq_vectors_with_other_component_count")
                     elif mode == "kind-other":
                         # an Array against a Vector whose every component holds the Array's numbers (or the other way round)
                         if specs[pk]["kind"] == "arr":
